@@ -93,13 +93,15 @@ void harness (void) {
 #elif H_FROM == 13
   in.d = (long double) nd_double ();
 #else
-  { /* any x87 extended bit pattern: 64-bit significand with explicit integer bit, 15-bit exponent, sign */
-    union { long double d; struct { uint64_t m; uint16_t se; } p; } x;
-    x.d = 0;
-    x.p.m = nd ();
-    x.p.se = (uint16_t) nd ();
-    /* canonical encodings only (the others are invalid operands on the x87): integer bit set unless exponent 0 */
-    H_ASSUME ((x.p.se & 0x7fff) == 0 ? (x.p.m >> 63) == 0 : (x.p.m >> 63) == 1);
+  { /* any bit pattern of the 16-byte object.  Natively (x87 extended: 64-bit significand with explicit integer bit,
+       15-bit exponent, sign, 6 padding bytes) only canonical encodings are values; CBMC models long double as a
+       128-bit IEEE format - the obligation is then decided for CBMC's format (see props/C07.py, assumptions). */
+    union { long double d; uint64_t w[2]; } x;
+    x.w[0] = nd ();
+    x.w[1] = nd ();
+#ifdef REPLAY
+    H_ASSUME ((x.w[1] & 0x7fff) == 0 ? (x.w[0] >> 63) == 0 : (x.w[0] >> 63) == 1);
+#endif
     in.d = x.d;
   }
 #endif
